@@ -15,7 +15,8 @@ NONE_CODE = 1000003          # how a `None` OUTPUT of the wrapped filter is writ
 SWALLOWED = ("AssertionError", "EOFError", "BrokenPipeError")
 PLAIN_ERRS = ("ValueError", "TypeError", "KeyError", "RuntimeError", "C08Error", "ZeroDivisionError",
               "StopIteration", "StopIteration", "OSError", "FileNotFoundError", "LookupError", "C08SubError",
-              "AttributeError", "AttributeError", "AttributeErrorFrom", "IndexError", "NotImplementedError", "UnicodeError")
+              "AttributeError", "AttributeError", "AttributeErrorFrom", "IndexError", "NotImplementedError", "UnicodeError",
+              "AttributeErrorNatural", "AttributeErrorNatural")      # phase 5 (round g m2): an AttributeError with Python's own wording ("… has no attribute …")
 # a StopIteration raised by the wrapped filter reaches the caller as RuntimeError('generator raised StopIteration')
 # (PEP 479: Foreach.filter is a generator), in-process and multi-process; the message carries no item id
 
@@ -118,14 +119,14 @@ def err_id(exc):
     import re
     args = getattr(exc, "args", ())
     if len(args) == 1 and isinstance(args[0], str):
-        m_ = re.match(r"c08-err-(\d+)( from c08)?$", args[0])
+        m_ = re.search(r"c08-err-(\d+)'?( from c08)?$", args[0])
         if m_:
             return int(m_.group(1))
     return None
 
 
 def err_type_name(err):
-    return "AttributeError" if err == "AttributeErrorFrom" else err
+    return "AttributeError" if err in ("AttributeErrorFrom", "AttributeErrorNatural") else err
 
 
 def err_text(item, err):
@@ -179,6 +180,11 @@ def consume(gen, case, on_abandon=None):
         return outs, {"kind": "raised", "type": type(e).__name__, "msg": str(e)[:200], "item": err_id(e), "arg": a0}
 
 
+def killed(case):
+    """does the case inject a process death (inside the filter: `kill`; before `run` is entered: `kill_spawn`)?"""
+    return case.get("kill") is not None or case.get("kill_spawn") is not None or case.get("kill_wait") is not None
+
+
 def build(case, flt):
     if case.get("kill") is not None and not inprocess(case):      # no worker process on the in-process path
         flt.kill_at = (case.get("base", 0) + case["kill"],)
@@ -204,6 +210,10 @@ def run_scheduled(case, prefix=None, mp=None, chooser=None):
         chooser = S.PolicyChooser(rng, sc.get("policy"), prefix if prefix is not None else sc.get("prefix"))
     sched = S.Sched(chooser, step_limit=6000 + 400 * len(case["items"]), wall=25.0)
     sched.none_code = NONE_CODE if has_none(case) else None
+    if case.get("kill_wait") is not None and not inprocess(case):
+        sched.kill_wait = tuple(case["kill_wait"])
+    if case.get("kill_spawn") is not None and not inprocess(case):
+        sched.kill_spawn = tuple(case["kill_spawn"]) if isinstance(case["kill_spawn"], list) else (case["kill_spawn"],)
     sched.register_main()
     FP, FT = S.make_fakes(sched, lines.ProcessLine, lines.ThreadLine)
     saved = (cpm.spawn_context, cpm.MyProcessLine, cpm.ThreadLine)
@@ -223,7 +233,7 @@ def run_scheduled(case, prefix=None, mp=None, chooser=None):
                 fr = getattr(g, "gi_frame", None)
                 return getattr(fr.f_locals.get("call"), "_n_procs", None) if fr is not None else None
             sched.np_probe = _np
-        with (contextlib.redirect_stdout(io.StringIO()) if case.get("kill") is not None else contextlib.nullcontext()):
+        with (contextlib.redirect_stdout(io.StringIO()) if killed(case) else contextlib.nullcontext()):
             try:
                 outs, outcome = consume(gen, case, on_abandon=lambda: sched.act("cAbandon"))
             except S.Hang as h:
@@ -416,11 +426,12 @@ def judge(case, run):
     if kind in ("closed", "close-raised"):
         if kind == "close-raised":
             fails.append(F("B", "abandoning the output raised %s(%s) (%s)" % (oc["type"], oc["msg"], desc), "abandon-raises"))
-    elif case.get("kill") is not None and not inprocess(case) and any(a["a"] == "wKilled" for a in (run.get("trace") or [{"a": "wKilled"}])):
+    elif killed(case) and not inprocess(case) and any(a["a"] in ("wKilled", "wKilledKey") for a in (run.get("trace") or [{"a": "wKilled"}])):
         # a worker process was killed while it handled an item: the statement still asks for every output or an error
         if kind == "ok" and exp - got:
-            fails.append(F("B", "a worker process was killed (exit code -9) while handling item %d: the call returned normally with %r, "
-                           "the outputs %r are missing and no error is raised (%s)" % (case["kill"], outs, dict(exp - got), desc), "worker-killed-item-lost"))
+            how = ("while handling item %d" % case["kill"]) if case.get("kill") is not None else "while it waited for the caller to read its key (read_wait)" if case.get("kill_wait") is not None else "before it entered run() (process start #%s, exit code 1)" % (case["kill_spawn"],)
+            fails.append(F("B", "a worker process was killed (exit code != 0) %s: the call returned normally with %r, "
+                           "the outputs %r are missing and no error is raised (%s)" % (how, outs, dict(exp - got), desc), "worker-killed-item-lost"))
         elif kind == "raised" and not rs:
             pass        # raising would be the acceptable reaction
     elif not rs and ups:
@@ -572,6 +583,41 @@ def correspond_readwait(case, run, driver):
     return fails, ans
 
 
+def correspond_rf(case, run, driver):
+    """phase 5, (A) for read_wait runs in which a WAITING process died (`wKilledKey` = model action `wCrashKey`): the logged trace must be a run of
+    `enabledRF`/`stepRF` and end in the model's outcome; (C): `muR` decreases (variant_decreases_rf), the bound of terminates_rf, nothing delivered
+    twice on any state (never_duplicated_rf), the out-queues stay in sync, no incarnation exceeds m"""
+    fails = []
+    oc = run["outcome"]
+    if run["trace"] is None or not case["items"] or case.get("abandon") == 0 or inprocess(case):
+        return fails, None
+    if run["escaped"]:
+        fails.append(F("A", "an exception escaped a background thread of the real code: %s" % run["escaped"][0][:300], "A:escaped-exception"))
+    trace = [dict(a, a="wCrashKey") if a["a"] == "wKilledKey" else a for a in run["trace"]]
+    nf = sum(1 for a in trace if a["a"] == "wCrashKey")
+    ans = driver.ask({"op": "traceRF", "cfg": model_cfg(case), "trace": trace, "faults": nf})
+    if ans["fail"] is not None:
+        at = ans["fail"]["at"]
+        a = trace[at] if at < len(trace) else None
+        fails.append(F("A", "crash x read_wait: trace inclusion fails at step %d: action %s is %s in the model (enabledRF/stepRF); model state %s key_wait=%s main_err=%s; trace so far …%s"
+                       % (at, json.dumps(a), ans["fail"]["why"], json.dumps(ans["state"]), ans["key_wait"], ans["main_err"], json.dumps(trace[max(0, at - 6):at])),
+                       "A:traceRF:%s:%s" % (ans["fail"]["why"], a["a"] if a else "?")))
+        return fails, ans
+    if oc["kind"] == "hang":
+        return fails, ans
+    mo = ans["outcome"]
+    got = [enc(o) for o in run["outs"]]
+    if not ans["done"]:
+        fails.append(F("A", "crash x read_wait: the call finished but the model is not in its final phase: %s" % json.dumps(ans["state"]), "A:traceRF:not-done"))
+    elif mo["kind"] != oc["kind"] or mo["outs"] != got or (mo["kind"] == "raised" and not err_matches(case, mo["err"], oc)):
+        fails.append(F("A", "crash x read_wait: outcome differs: implementation %s %s, model %s" % (got, oc, json.dumps(mo)), "A:traceRF:outcome"))
+    if not ans["mu_decreasing"]:
+        fails.append(F("C", "crash x read_wait: muR did not decrease / an output appeared twice / the out-queues went out of sync / an incarnation exceeded m on some state of an accepted trace", "C:traceRF:variant"))
+    if not ans["within_bound"]:
+        fails.append(F("C", "crash x read_wait: the accepted trace is longer than 6*mu(init) (theorem terminates_rf)", "C:traceRF:bound"))
+    return fails, ans
+
+
 def correspond_faults(case, run, driver):
     """(A) for runs in which a worker process was killed: the logged trace (`wKilled` = model action `wCrash`) must be a run of
     the fault extension `enabledF`/`stepF` (Model/C08.lean, phase 4) and end in the model's outcome; (C): `muF` decreases on every
@@ -592,7 +638,15 @@ def correspond_faults(case, run, driver):
                        % (at, json.dumps(a), ans["fail"]["why"], json.dumps(ans["state"]), ans["main_err"], ans["skipped"], json.dumps(trace[max(0, at - 6):at])),
                        "A:traceF:%s:%s" % (ans["fail"]["why"], a["a"] if a else "?")))
         return fails, ans
+    if not ans.get("fault_inv", True):
+        fails.append(F("C", "fault extension: on some state of an accepted trace with crashes the call had not returned but no step of the code was enabled in the "
+                            "model (theorems deadlock_free_faults / stuck_done_faults), or delivered + lost outputs exceed the outputs (never_duplicated_faults): %s"
+                       % json.dumps(ans["state"]), "C:traceF:fault-inv"))
     if oc["kind"] == "hang":
+        # the model says (deadlock_free_faults) that a step of the code is possible in the state the accepted trace ends in: the hang is the code's
+        if ans.get("stuck") is False and not ans["done"]:
+            fails.append(F("A", "fault extension: the real code hangs after a worker crash in a state where the model (deadlock_free_faults) has %s enabled step(s) of the code: %s"
+                           % (ans.get("code_enabled"), json.dumps(ans["state"])), "A:traceF:hang-not-stuck"))
         return fails, ans
     mo = ans["outcome"]
     got = [enc(o) for o in run["outs"]]
@@ -684,7 +738,8 @@ class C08(Property):
             "spawned processes), every call's trace replayed through the Lean enabled/step (extended by the put-timeout action) from startCall/init, outcome compared "
             "incl. the wrapper's translation; DFS cases with `por` enumerate all schedules up to commutation of independent steps (sleep sets over Coba.C08.indep, "
             "table cross-checked with the driver — phase 4: over Coba.C08.indep2, theorem step_comm2); killed-worker cases (family gen_fault: the process handling item i dies, "
-            "every (n,m) shape, crash before/after the caller woke up) are replayed through the fault extension enabledF/stepF (`wCrash`), read_wait=True cases (family "
+            "every (n,m) shape, crash before/after the caller woke up) are replayed through the fault extension enabledF/stepF (`wCrash`) and on every state of the replay the driver evaluates "
+            "the conclusions of deadlock_free_faults / never_duplicated_faults (`faultInvOk`: call not returned => a step of the code is enabled; delivered + lost <= all), read_wait=True cases (family "
             "gen_readwait, scheduled + real processes) through the key layer enabledR/stepR (`wKey`/`cKey`/`drainKey`); non-trivial = at least 2 items and a trace of at least 12 steps (or a real-process run or a history); distinct by canonical JSON")
     trusted_base = [
         "thread-based fakes for spawn_context.Queue/Event, MyProcessLine and ThreadLine (harness/props/c08_sched.py): FIFO queues, bounded put blocks, put/get with a "
@@ -707,6 +762,11 @@ class C08(Property):
         "exactly_once_faults_partial": "with worker crashes (exit code != 0) the code loses the item in hand and returns normally (finding C08-F5): proved for the "
                                        "fault budget 0; witness exactly_once_faults_counterexample (replayed on the real code: corpus kill cases)",
         "error_surfaces_faults_partial": "same forced hypothesis (no crash): a crashed process' pending error is lost with it",
+        "exactly_once_nocrash_partial": "phase 5, the same clause for ANY fault budget f: forced hypothesis `s.budget = f` (no crash happened in this run); with crashes "
+                                        "what IS proved for every budget: deadlock_free_faults, reaches_done_faults, stuck_done_faults, never_duplicated_faults "
+                                        "(delivered + held by dead processes <= all), outputs_accounted_faults; witnesses exactly_once_faults_counterexample, "
+                                        "crash_strands_items_counterexample (n=1: the queued items are stranded too; corpus kill case, replayed on the real code)",
+        "error_surfaces_nocrash_partial": "phase 5, same forced hypothesis `s.budget = f`",
     }
 
     # ---- generators
@@ -961,6 +1021,13 @@ class C08(Property):
                 items[i]["outs"] = []
         case = {"mode": "sched", "n": n, "m": m, "items": items, "abandon": None,
                 "kill": 0 if rng.chance(0.4) else rng.below(cnt)}
+        if rng.chance(0.35):
+            # phase 5: a process dies before it enters run() (missing `__main__` guard: exit code 1) — the first one started (the caller then skips), a later
+            # one, or a replacement; sometimes together with a crash inside the filter
+            ks = 0 if rng.chance(0.4) else rng.randint(1, n + 2)
+            case["kill_spawn"] = [ks] if rng.chance(0.8) else sorted({ks, rng.randint(0, n + 3)})
+            if rng.chance(0.7):
+                case["kill"] = None
         if rng.chance(0.15):
             case["abandon"] = rng.randint(1, 2)
         if rng.chance(0.3):
@@ -969,10 +1036,19 @@ class C08(Property):
         case["sched"] = {"seed": rng.below(2 ** 32), "policy": pol}
         return case
 
+    def gen_keywait(self, rng):
+        """phase 5: read_wait=True and the k-th process that begins to wait for the caller dies while waiting (crash x read_wait)"""
+        c = self.gen_readwait(rng)
+        c["mode"] = "sched"
+        c.pop("history", None)
+        k = 0 if rng.chance(0.4) else rng.randint(1, c["n"] + 1)
+        c["kill_wait"] = [k] if rng.chance(0.7) else sorted({k, rng.randint(0, c["n"] + 2)})
+        return c
+
     def gen_readwait(self, rng, mode="sched"):
         """phase 4: `Multiprocessor(f, n, m, read_wait=True)`: a process exits only after the caller has read its key"""
         c = self.gen_case(rng, "quick", mode if mode == "real" else None)
-        for k in ("wrap", "kill", "head", "buffer"):
+        for k in ("wrap", "kill", "kill_spawn", "head", "buffer"):
             c.pop(k, None)
         for it in c["items"]:
             it.pop("unpick", None)
@@ -1007,7 +1083,7 @@ class C08(Property):
             items = [{"outs": [rng.randint(0, 5)] if rng.chance(0.85) else [], "err": None, "gen": True} for _ in range(cnt)]
             h = {"items": items, "abandon": None}
             if kk == "raise":
-                self.add_errors(rng, items, list(PLAIN_ERRS[:5]) + ["StopIteration", "C08SubError", "AttributeError", "AttributeErrorFrom"])
+                self.add_errors(rng, items, list(PLAIN_ERRS[:5]) + ["StopIteration", "C08SubError", "AttributeError", "AttributeErrorFrom", "AttributeErrorNatural"])
             elif kk == "abandon":
                 h["abandon"] = rng.randint(1, max(1, sum(len(it["outs"]) for it in items)))
             hist.append(h)
@@ -1027,6 +1103,8 @@ class C08(Property):
             return self.gen_fault(rng)
         if r >= 740:
             return self.gen_readwait(rng, "real" if (r == 740 and tier == "quick") else "sched")
+        if r >= 715:
+            return self.gen_keywait(rng)            # phase 5: crash x read_wait
         if r < (13 if tier == "quick" else 20):
             return self.gen_dfs(rng, tier)
         if r < 40:
@@ -1121,6 +1199,26 @@ class C08(Property):
         cs.append({"mode": "sched", "n": 2, "m": 0, "items": [one(1), one(2)], "abandon": None, "kill": 0, "sched": P("uniform")})
         for pol in ("caller-slow", "callbacks-eager"):
             cs.append({"mode": "sched", "n": 2, "m": 1, "items": [one(1)], "abandon": None, "kill": 0, "sched": P(pol)})
+        # phase 5: crash x read_wait — the k-th process that begins to wait for the caller dies while waiting (n=1, m=1 one item = the Lean `example` beside never_duplicated_rf)
+        for pol in ("uniform", "caller-slow", "workers-first", "callbacks-eager"):
+            cs.append({"mode": "sched", "n": 1, "m": 1, "items": [one(1)], "abandon": None, "read_wait": True, "kill_wait": [0], "sched": P(pol)})
+            cs.append({"mode": "sched", "n": 1, "m": 1, "items": [one(i) for i in range(3)], "abandon": None, "read_wait": True, "kill_wait": [0], "sched": P(pol)})
+            cs.append({"mode": "sched", "n": 2, "m": 1, "items": [one(i) for i in range(5)], "abandon": None, "read_wait": True, "kill_wait": [1], "sched": P(pol)})
+            cs.append({"mode": "sched", "n": 2, "m": 0, "items": [{"outs": [i], "err": ("ValueError" if i == 1 else None), "gen": True} for i in range(4)],
+                       "abandon": None, "read_wait": True, "kill_wait": [0], "sched": P(pol)})
+            cs.append({"mode": "sched", "n": 3, "m": 2, "items": [one(i) for i in range(7)], "abandon": None, "read_wait": True, "kill_wait": [0, 2], "sched": P(pol)})
+        # phase 5: crash_strands_items_counterexample (n=1, m=2, two items, the only process dies holding the first: `ok []`, the queued item is stranded) and
+        # more single-process / late-crash shapes for the fault invariant (deadlock_free_faults, never_duplicated_faults evaluated on every state)
+        for pol in ("uniform", "caller-slow", "workers-first", "loader-fast"):
+            # a process that dies before run(): the first one (the callback sets `_main_err` and the event: the caller starts nothing else and returns `[]`), a later one, a replacement
+            cs.append({"mode": "sched", "n": 2, "m": 0, "items": [one(i) for i in range(4)], "abandon": None, "kill": None, "kill_spawn": [0], "sched": P(pol)})
+            cs.append({"mode": "sched", "n": 3, "m": 0, "items": [one(i) for i in range(5)], "abandon": None, "kill": None, "kill_spawn": [1], "sched": P(pol)})
+            cs.append({"mode": "sched", "n": 2, "m": 1, "items": [one(i) for i in range(5)], "abandon": None, "kill": None, "kill_spawn": [3], "sched": P(pol)})
+            cs.append({"mode": "sched", "n": 1, "m": 1, "items": [one(i) for i in range(3)], "abandon": None, "kill": None, "kill_spawn": [1], "sched": P(pol)})
+            cs.append({"mode": "sched", "n": 2, "m": 2, "items": [one(i) for i in range(6)], "abandon": None, "kill": 4, "kill_spawn": [0, 2], "sched": P(pol)})
+            cs.append({"mode": "sched", "n": 1, "m": 2, "items": [one(1), one(2)], "abandon": None, "kill": 0, "sched": P(pol)})
+            cs.append({"mode": "sched", "n": 1, "m": 1, "items": [one(i) for i in range(3)], "abandon": None, "kill": 1, "sched": P(pol)})
+            cs.append({"mode": "sched", "n": 3, "m": 1, "items": [{"outs": [i, i], "err": None, "gen": True} for i in range(6)], "abandon": None, "kill": 4, "sched": P(pol)})
         # errors: first / last / every item; error while the loader is blocked on a full in_queue
         for n, m in ((1, 1), (2, 0), (2, 1), (3, 2)):
             for bad in ([0], [5], [0, 1, 2, 3, 4, 5], [2, 3]):
@@ -1182,7 +1280,7 @@ class C08(Property):
         # a stream that re-yields one mutable buffer; the filter's own AttributeError (also worded like pickle's lookup error)
         for n, m in ((1, 0), (2, 0), (1, 2), (3, 1)):
             cs.append({"mode": "sched", "n": n, "m": m, "items": [one(i) for i in range(6)], "abandon": None, "buffer": True, "sched": P("uniform")})
-            for kind in ("AttributeError", "AttributeErrorFrom"):
+            for kind in ("AttributeError", "AttributeErrorFrom", "AttributeErrorNatural"):
                 items = [{"outs": ([] if i == 2 else [i]), "err": (kind if i == 2 else None), "gen": False} for i in range(5)]
                 cs.append({"mode": "sched", "n": n, "m": m, "items": items, "abandon": None, "sched": P("uniform")})
         cs.append({"mode": "real", "n": 2, "m": 1, "items": [one(i) for i in range(5)], "abandon": None, "buffer": True})
@@ -1245,19 +1343,29 @@ class C08(Property):
         fails = judge(case, run)
         model = None
         ftags = []
-        if driver is not None and not fails and mode != "real" and case.get("kill") is None and case.get("read_wait") and not inprocess(case) and case["items"] and case.get("abandon") != 0:
+        if driver is not None and not fails and mode != "real" and not killed(case) and case.get("read_wait") and not inprocess(case) and case["items"] and case.get("abandon") != 0:
             afails, model = correspond_readwait(case, run, driver)
             fails += afails
-        elif driver is not None and not fails and mode != "real" and case.get("kill") is None:
+        elif driver is not None and not fails and mode != "real" and not killed(case):
             afails, model = correspond(case, run, driver)
             fails += afails
-        elif (driver is not None and mode != "real" and case.get("kill") is not None and not inprocess(case)
+        elif (driver is not None and mode != "real" and case.get("kill_wait") is not None and case.get("read_wait") and not inprocess(case)
+              and all(f["sig"] == "worker-killed-item-lost" for f in fails)):
+            afails, model = correspond_rf(case, run, driver)
+            fails += afails
+            if model is not None and model.get("fail") is None:
+                ftags = ["fault:keywait:replayed", "fault:keywait:%s" % ("crashed" if any(a["a"] == "wKilledKey" for a in run["trace"]) else "caller-was-first")]
+                if model.get("skipped"):
+                    ftags.append("fault:keywait:caller-skipped")
+        elif (driver is not None and mode != "real" and killed(case) and not inprocess(case)
               and all(f["sig"] == "worker-killed-item-lost" for f in fails)):
             # phase 4: killed-worker runs are replayed through the fault extension of the model (the recorded finding C08-F5 is what the model predicts)
             afails, model = correspond_faults(case, run, driver)
             fails += afails
             if model is not None and model.get("fail") is None:
                 ftags = ["fault:replayed"] + (["fault:caller-skipped"] if model.get("skipped") else []) + (["fault:lost-outputs"] if model.get("lost_outs") else ["fault:nothing-lost"])
+                # phase 5: the driver evaluated `faultInvOk` (not done ⇒ a step of the code enabled; delivered + lost ≤ all) on every state of the replay
+                ftags.append("fault:inv-checked:%s" % ("stuck-and-done" if model.get("stuck") else "done-background-still-enabled" if model.get("done") else "not-done"))
         rs = raising(case)
         ni = len(case["items"])
         tags = ["mode:" + mode, "n:%d" % case["n"], "m:%d" % case["m"], "items:%s" % (ni if ni <= 10 else "11-25" if ni <= 25 else "26-50"),
@@ -1283,9 +1391,12 @@ class C08(Property):
                 tags.append("read_wait:key-drained")
             if "wKey" in names_ and names_.count("wKey") > names_.count("cKey") + names_.count("drainKey"):
                 tags.append("read_wait:process-left-waiting")
-        if case.get("kill") is not None:
+        if killed(case):
             tags.append("fault:worker-killed")
             tags += ftags
+            for a in (run.get("trace") or []):
+                if a["a"] == "wKilled" and a.get("spawned"):
+                    tags.append("fault:spawn-crash:%s" % ("first-process" if a["w"] == 0 and "mEvent" not in [b["a"] for b in run["trace"][:run["trace"].index(a)]] else "later-process"))
             if any(a["a"] == "wKilled" for a in (run.get("trace") or [])):
                 tags.append("fault:killed:m=%s" % ("0" if case["m"] == 0 else "1" if case["m"] == 1 else "2+"))
         if case.get("head") and case["items"]:
